@@ -285,3 +285,33 @@ Example modelled_world_example :
   exists m0 bs0 m1 bs1, ex_run 0 = LOk m0 bs0 /\ ex_run 1 = LOk m1 bs1 /\ m0 = 4 /\ m1 = 4 /\
     length (concat bs0) = 2 /\ length (concat bs1) = 1.
 Proof. vm_compute. do 4 eexists. repeat split. Qed.
+
+(** the loader run is DEFINED: for the sequential and the interleaved strategy, whenever the constructors accept the
+    configuration and no selected pipeline call panics, no fuel runs out anywhere and the run returns min_items and
+    batches; for the weighted strategy the same whenever the generator's rejection sampler stays within its fuel *)
+Theorem loader_total_nw : forall opq p g b seed epoch files sort shuffle prefetch blim ty s lim skip ff rank W,
+  s <> Weighted -> pcfg_ok p = true -> files <> [] -> (N.of_nat (total_len files) < 9223372036854775807)%N ->
+  exists out, gen_lines s (seed + epoch)%N files = Some (C07_Model.Ok out) /\
+    (loader_panics opq p g b seed epoch (data_of_out out) lim skip ff rank W = false ->
+     exists bs, loader_run opq p g b seed epoch s files lim skip ff rank W sort shuffle prefetch blim ty
+                = LOk (min_items lim skip (length out)) bs).
+Proof. exact loader_run_total_nw. Qed.
+Print Assumptions loader_total_nw.
+
+Theorem loader_total_weighted : forall opq p g b seed epoch files sort shuffle prefetch blim ty lim skip ff rank W r,
+  pcfg_ok p = true -> files <> [] -> existsb (@C07_Model.is_nil line) files = false ->
+  (N.of_nat (total_len files) < 9223372036854775807)%N ->
+  gen_lines Weighted (seed + epoch)%N files = Some r ->
+  exists out, r = C07_Model.Ok out /\
+    (loader_panics opq p g b seed epoch (data_of_out out) lim skip ff rank W = false ->
+     exists bs, loader_run opq p g b seed epoch Weighted files lim skip ff rank W sort shuffle prefetch blim ty
+                = LOk (min_items lim skip (length out)) bs).
+Proof. exact loader_run_total_w. Qed.
+Print Assumptions loader_total_weighted.
+
+(** the executable statement of the direct line holds of the model's own output (inside the model's domain) *)
+Theorem check_run_direct : forall v, kind v = (-1)%Z ->
+  cfg_dom (v_cfg (v_nth 1 v)) = true -> has_opaque (v_cfg (v_nth 1 v)) = false ->
+  check_C08x v (run_C08x v) = true.
+Proof. exact check_preproc_run. Qed.
+Print Assumptions check_run_direct.
